@@ -98,6 +98,15 @@ func (v *View) VRFState() *beacon.VRFState {
 	return st
 }
 
+// FutureEpochHeight returns the height at which the next epoch transition is scheduled (0 = not scheduled yet).
+func (v *View) FutureEpochHeight() int64 {
+	fe, err := beaconState.NewImmutableState(v.cx.State()).GetFutureEpoch(v.ctx)
+	if err != nil || fe == nil {
+		return 0
+	}
+	return fe.Height
+}
+
 // Close releases the view.
 func (v *View) Close() { v.cx.Close() }
 
@@ -585,6 +594,15 @@ func (g *TxGen) Gen(t *rapid.T) *TxDesc {
 	case "newruntime":
 		// a new compute runtime registered by an entity (deployment in the future, as required for new runtimes)
 		rt := g.NewRuntimeDescriptor(t, a)
+		switch rapid.IntRange(0, 5).Draw(t, "newRtOverLimit") {
+		case 0:
+			// passes every check of the registry and is rejected by the roothash application it is announced to
+			rt.Executor.MaxMessages = 33 + uint32(rapid.IntRange(0, 1000).Draw(t, "newRtMaxMessages"))
+			note = "new runtime: executor max messages above the roothash limit"
+		case 1:
+			rt.TxnScheduler.MaxInMessages = 33 + uint32(rapid.IntRange(0, 1000).Draw(t, "newRtMaxInMessages"))
+			note = "new runtime: max incoming messages above the roothash limit"
+		}
 		method, body = registry.MethodRegisterRuntime, rt
 	default:
 		// methods the harness cannot build validly: must fail cleanly
